@@ -361,7 +361,7 @@ def shards(tier, seed):
     n_h = 4 if tier == 'quick' else 16
     for k in range(n_h):
         out.append(dict(kind='hyp', seed=seed * 1000 + k,
-                        n=1500 if tier == 'quick' else 20000))
+                        n=1500 if tier == 'quick' else 100000))
     return out
 
 
